@@ -20,6 +20,7 @@ import OFV.Proofs.C03Valid
 import OFV.Proofs.C03Chemist
 import OFV.Proofs.C03WeylSpec
 import OFV.Proofs.C03Canon3
+import OFV.Proofs.C03Exact
 import Mathlib.Tactic.NormNum
 
 namespace OFV.C03
@@ -257,6 +258,39 @@ theorem normal_ordered_idempotent (a : Op) (va : ∀ e ∈ a, ∀ f ∈ e.1, f.2
   obtain ⟨_, va', _⟩ := normal_ordered_fermion_wellformed 0 a va
   exact (canonicity_fermion (normalOrdered 0 .fermion a) a va' va).1
     (fun s out => normal_ordered_sound_melF a va out s)
+
+/-! ## the exact regime: the real tolerance versus tolerance 0
+
+The theorems above are about the Model run with tolerance 0; the code (and the driver) run with
+`EQ_TOLERANCE`.  On inputs whose coefficients lie on a lattice `(1/D)·ℤ[i]` with `tol·D ≤ 1`
+(all dyadic inputs of the correspondence run: `D = 2^k`, `k ≤ 26` for `tol = 1e-8`) `+=` only
+deletes exact zeros, and both runs return the same coefficients. -/
+
+/-- fermions and bosons: same coefficient for every term. -/
+theorem normal_ordered_exact_regime (D : Nat) (hD : 0 < D) (tol : Rat) (h0 : 0 ≤ tol) (h1 : tol * D ≤ 1)
+    (k : Kind) (hk : k.isFermion = true ∨ k.cls = .boson) (a : Op) (la : ∀ e ∈ a, Lat D e.2) :
+    ∀ t, Dict.getD (normalOrdered tol k a) t 0 = Dict.getD (normalOrdered 0 k a) t 0 := by
+  have hkk : ∀ c, Lat D c → Lat D (k.swapCoeff c) ∧ Lat D (k.contractCoeff c) := by
+    cases k with
+    | fermion => exact hk_fermion D
+    | boson => exact hk_boson D
+    | quad h => rcases hk with h' | h' <;> simp [Kind.isFermion, Kind.cls] at h'
+  have hmk : ∀ t c, Lat D c → Lat D (c * (simplify k.cls t).1) := by
+    intro t c hc
+    cases k <;> exact lat_mul_one D c hc
+  exact (normalOrdered_sim D hD tol h0 h1 k hkk hmk a la).2.2.2.2
+
+/-- … so soundness holds for the tolerance the code uses (fermions, lattice inputs). -/
+theorem normal_ordered_sound_melF_tol (D : Nat) (hD : 0 < D) (tol : Rat) (h0 : 0 ≤ tol) (h1 : tol * D ≤ 1)
+    (a : Op) (hv : ∀ e ∈ a, ∀ f ∈ e.1, f.2 < 2) (la : ∀ e ∈ a, Lat D e.2) (out s : Nat) :
+    Spec.melF (normalOrdered tol .fermion a) out s = Spec.melF a out s := by
+  rw [← normal_ordered_sound_melF a hv out s]
+  exact melF_congr _ _ (wf_normalOrdered tol .fermion a) (wf_normalOrdered 0 .fermion a)
+    (normal_ordered_exact_regime D hD tol h0 h1 .fermion (Or.inl rfl) a la) out s
+
+-- non-vacuity: the extracted EQ_TOLERANCE admits the dyadic lattice 2^-26
+example : (0 : Rat) ≤ Generated.eqTolerance ∧ Generated.eqTolerance * ((2 ^ 26 : Nat) : Rat) ≤ 1 := by
+  constructor <;> norm_num [Generated.eqTolerance]
 
 /-! ## `chemist_ordered` and `reorder` only rewrite the operator -/
 
